@@ -37,6 +37,7 @@ DEFAULT_PROFILE = dict(
     coalesce=True,
     cached_nodes=True,
     binds=True,
+    dclass=True,           # dataset classes as nodes (instances are values; not generated in picklable programs)
     weights=None,
 )
 
@@ -157,6 +158,8 @@ class _G:
             kinds += ["cached"]
         if not hashable:
             kinds += ["dict", "fapp"]
+            if self.p.get("dclass") and not self.p.get("picklable"):
+                kinds += ["dclass"]
             if self.p["templates"]:
                 kinds += ["tmpl"]
             if self.p["maps"]:
@@ -226,6 +229,12 @@ class _G:
             if hashable and k != "tuple":
                 k = "tuple"
             return {"k": k, "items": items}
+        if k == "dclass":
+            # a dataset class: members under public and single-underscore names, annotated or not, own or inherited from
+            # a plain base class; evaluating it gives an instance whose attributes are the members' evaluations
+            names = self.draw(st.lists(st.sampled_from(["a", "b", "c", "_p"]), min_size=1, max_size=3, unique=True))
+            return {"k": "dclass", "members": [{"name": nm, "node": self.node(d) if self.chance(0.6) else self.leaf(False),
+                                                "annotated": self.chance(0.6), "inherited": self.chance(0.25)} for nm in names]}
         if k == "dict":
             n = self.draw(st.integers(0, 3))
             keys = self.draw(st.lists(st.sampled_from(["x", "y", 1, None, 0]), min_size=n, max_size=n, unique_by=lambda v: (type(v).__name__, v)))
@@ -436,11 +445,29 @@ def mentioned_keys(spec):
 def normalise(spec, flags, ctx=None):
     """Remove, by construction, the shapes of open known findings from a generated spec.
     Returns the (possibly rewritten) spec; each applied exclusion is counted on ctx."""
-    if not flags:
-        return spec
     import copy
-    spec = copy.deepcopy(spec)
     applied = set()
+    kinds = kinds_in(spec)
+    if "dclass" in kinds:
+        # known finding K5 (no list support in confectioner.set_dotted_key): a dataset class that reports a list-indexed key
+        # cannot be instantiated. Programs that contain a dataset-class node read whole lists instead of list elements;
+        # this is applied in every check (the shape is the same wherever the class sits) and counted.
+        listy = []
+        walk(spec, lambda n: listy.append(n) if n["k"] == "opt" and any(seg.isdigit() for seg in n["key"].split(".")) else None)
+        if listy:
+            spec = copy.deepcopy(spec)
+
+            def fix(n):
+                if n["k"] == "opt" and any(seg.isdigit() for seg in n["key"].split(".")):
+                    n["key"] = n["key"].split(".")[0]
+            walk(spec, fix)
+            applied.add("no-set-list-index")
+    if not flags:
+        if ctx is not None:
+            for a in applied:
+                ctx.exclude(a)
+        return spec
+    spec = copy.deepcopy(spec)
     if "no-effect-option-params" in flags:
         for d in spec["defs"]:
             for e in d.get("effects", []):
